@@ -227,14 +227,18 @@ def r20_set_backend(ctx):
     ctx.fn(sb)
     w = ctx.where(sb)
     cls = ctx.p.cls(BK, 'Backend')
-    for arg, label in (('mod/APIX', 'name'), (None, 'default'), ('OBJ', 'Backend object')):
+    for arg, label, before in (('mod/APIX', 'name', None), (None, 'default', None), ('OBJ', 'Backend object', None),
+                               ('OBJ', 'Backend object with the name and api already in force', 'given.mod/APIQ'),
+                               ('mod/APIX', 'name, after another backend', 'other.mod')):
         ai = make_interp(ctx, {}, True, True)
         holder = {}
 
         def thunk():
+            if before is not None:
+                ai.call_function(sb, [], {'name': before})
             a = arg
             if arg == 'OBJ':
-                a = ai.apply(ClassRef(cls), [], {'name': 'given.mod'}, None)
+                a = ai.apply(ClassRef(cls), [], {'name': 'given.mod', 'api': 'APIQ', 'use_environ': False} if before else {'name': 'given.mod'}, None)
                 holder['given'] = a
             ai.call_function(sb, [], {'name': a} if a is not None else {})
             return ai.module_globals.get('mido')
